@@ -42,15 +42,16 @@ theorem fixLoop_origin (S : Sys) (mb m : Rat) (sv : List Nat) : ∀ st : St, ∀
         · exact Or.inr ⟨by simp [huv], Or.inl hmb⟩
         · simp only [upd, huv, if_false] at h1; exact Or.inl h1
       · exact Or.inr ⟨by simp [h1.1], h1.2⟩
-    · by_cases heq : dblEq mb ((S.var v).bound * (S.var v).penalty) 0 = true
-      · rw [fixLoop_eq S 0 mb m st v rest hmb heq] at h
+    · by_cases hc : 0 < (S.var v).bound ∧ dblEq mb ((S.var v).bound * (S.var v).penalty) 0 = true
+      · have heq := hc.2
+        rw [fixLoop_eq S 0 mb m st v rest hmb hc] at h
         rcases ih _ u h with h1 | h1
         · rw [(fixVar_fixed S 0 st v _).1] at h1
           by_cases huv : u = v
           · exact Or.inr ⟨by simp [huv], Or.inr (by rw [huv]; exact (dblEq_zero _ _).mp heq)⟩
           · simp only [upd, huv, if_false] at h1; exact Or.inl h1
         · exact Or.inr ⟨by simp [h1.1], h1.2⟩
-      · rw [fixLoop_skip S 0 mb m st v rest hmb heq] at h
+      · rw [fixLoop_skip S 0 mb m st v rest hmb hc] at h
         rcases ih _ u h with h1 | h1
         · exact Or.inl h1
         · exact Or.inr ⟨by simp [h1.1], h1.2⟩
